@@ -38,7 +38,8 @@ PROPS["C14"] = dict(
     harness="p_scan",
     phases=dict(quick=[enum(8), rc(8, 3000)], thorough=[enum(16), rc(16, 50000)]),
     rule=("cases: file maps (1-4 files) whose contents are strings over the scanner's significant characters, "
-          "concatenated documented spellings and near-misses with/without separators, raw bytes, and include layouts; "
+          "concatenated documented spellings and near-misses with/without separators, raw bytes, include layouts (one file name agrees with "
+          "the main file's up to a NUL byte), 1/40 of the texts preceded by more than 65535 newlines; "
           "plus every string up to the enumerated length over a 12-character alphabet. Oracle: reference maximal-munch "
           "lexer with include splicing (kind, text, file, end line, one final EOF); committed lex.yy.c and a flex-generated "
           "scanner must both agree with it and with each other (output digest). Non-trivial: the reference stream has >=2 "
@@ -62,7 +63,7 @@ PROPS["C15"] = dict(
     phases=dict(quick=[enum(8), rc(8, 12000)], thorough=[enum(16), rc(16, 150000)]),
     rule=("cases: every include graph over <=3 (quick) / <=4 (thorough) files with <=2 include directives per file, targets "
           "= any file, itself, an absent name or no quoted name, main present/absent; plus random graphs up to 8 files x 4 "
-          "directives. Oracle: reference recursive include resolver with an active stack: token stream, multiset of "
+          "directives (an eighth with names that agree up to an embedded NUL byte) and include chains of 33-45 files. Oracle: reference recursive include resolver with an active stack: token stream, multiset of "
           "(error type, file, line range), file requests of compile() as a set. Non-trivial: the graph has a cycle, a "
           "missing target/main or a file included more than once; distinct by content hash."),
     exhaustive_note=dict(quick="all include graphs over 1..3 files x <=2 directives x main present/absent",
@@ -88,7 +89,8 @@ PROPS["C01"] = dict(
           "chosen precedence; a third of the macro cases are rich in mixed expressions), f(args), IF-THEN-ELSE, SWAP, REPEAT), printed in "
           "free layout (all keyword spellings, comments, glued tokens, macro definitions with the body on the next line or sharing "
           "lines) and split over up to 4 included files at arbitrary token boundaries, a quarter with one file included at two places, "
-          "file names short, 130 characters long or with unusual characters. Oracle: independent "
+          "file names short, 130 characters long, with unusual characters, agreeing up to an embedded NUL byte, or one name being another plus a "
+          "digit; 1/40 of the sources start beyond line 65535; 1/12 of the macro-free programs have a root or callee frame of ~256 registers. Oracle: independent "
           "reference interpreter over the generator's AST: every user variable of every live activation at the end (also after STOP inside "
           "a callee), divergence checked both ways with proportional budgets. Non-trivial: reference terminated within budget and executed "
           ">=1 loop iteration, call or taken jump; distinct by content hash of the file map."),
@@ -127,7 +129,8 @@ PROPS["C19"] = dict(
     harness="p_sem",
     phases=dict(quick=[rc(8, 800), rc(8, 5000, flavour="fast", seed_offset=100)],
                 thorough=[rc(16, 10000), rc(16, 50000, flavour="fast", seed_offset=100)]),
-    rule=("cases: typed random programs, half of them with a forced call inside a loop, run instruction by instruction (<=30000). Oracle "
+    rule=("cases: typed random programs, half of them with a forced call inside a loop, run instruction by instruction (<=30000), a third of them with one reset() at a position drawn from the tape (often inside a "
+          "callee), a twelfth with frames of ~256 registers. Oracle "
           "(invariant via read-only hook): after every instruction the frames of the live activations are contiguous in call order from "
           "word 0 and the data memory size equals the sum of their sizes. Non-trivial: run with >=3 returns; distinct by content hash."),
     min_nontrivial=dict(quick=1500, thorough=40000),
@@ -142,7 +145,7 @@ PROPS["C20"] = dict(
     phases=dict(quick=[rc(8, 2500), rc(8, 8000, flavour="fast", seed_offset=100)],
                 thorough=[rc(16, 40000), rc(16, 70000, flavour="fast", seed_offset=100)]),
     rule=("cases: (a) typed random programs with constants near 2^31 (largest accepted literal, x+c with large c, helper-program doubling), "
-          "run twice instruction by instruction under UBSan; (b) numeric literals of 1-40 digits (within 3 of 2^31-1, 32-bit wrapping values, "
+          "run twice instruction by instruction under UBSan; (b) numeric literals of 1-40 digits (within 3 of 2^31-1, values that wrap under 32- or 64-bit conversion: multiples of 2^32, 2^63, 2^64 and multiples, 2^128; "
           "long digit strings) in every literal position: assignment, IF constant, call argument, +/- sugar constant, macro priority, $n. "
           "Oracle: no sanitizer report, every data word in [0, 2^31-1] after every instruction, both runs end identically; literal >= 2^31-1 "
           "<=> compile incorrect with an 'out of range' error. Non-trivial: a run in which the mathematical value of an addition exceeds "
@@ -160,7 +163,7 @@ PROPS["C16"] = dict(
     phases=dict(quick=[rc(6, 800), rc(6, 5000, flavour="fast", seed_offset=100), rc(4, 3000, harness="p_accept", seed_offset=200)],
                 thorough=[rc(12, 10000), rc(12, 50000, flavour="fast", seed_offset=100), rc(8, 60000, harness="p_accept", seed_offset=200)]),
     rule=("cases: (accept direction) typed random programs, two thirds of them using neither WHILE nor GOTO with LOOP bodies that assign "
-          "their own bound. Oracle: the EXEC call graph of the emitted code is acyclic, the activation stack never exceeds definitions+1 "
+          "their own bound, a third with the library macros (which expand to LOOPs and assignments only), a twelfth with ~256-register frames. Oracle: the EXEC call graph of the emitted code is acyclic, the activation stack never exceeds definitions+1 "
           "after any instruction, LOOP-only programs halt within the budget proportional to the reference step count and end in the "
           "reference state. (reject direction, harness p_accept) self/forward/mutual references must be rejected unless an earlier "
           "complete definition of the name exists. Non-trivial: LOOP-only program with nesting >=2 whose body assigns the bound and which "
@@ -178,7 +181,7 @@ PROPS["C04"] = dict(
     phases=dict(quick=[enum(8), rc(8, 2500)], thorough=[enum(16), rc(16, 60000)]),
     rule=("cases: generated valid macro-free sources (free layout, all keyword spellings, +/- sugar, optionally split over two files) "
           "unmutated (30%), with 1-4 token deletions/insertions/replacements/adjacent swaps/truncations over the language vocabulary plus "
-          "junk tokens (60%), token soup (10%); plus every single-token edit of 2 (quick) / 3 (thorough) fixed base programs. Oracle: "
+          "junk tokens (60%), token soup (10%), statement sequences of 250-450 statements; plus every single-token edit of 2 (quick) / 3 (thorough) fixed base programs. Oracle: "
           "reference lexer -> sugar -> recursive-descent recogniser of the documented LL(1) grammar -> static rules (calls bind to the "
           "latest complete earlier definition with equal arity, builtin __INC__/__DEC__ form, jump targets are labels of the same body, "
           "literals < 2^31-1); generated_correctly must equal the verdict in both directions. Sources with duplicate labels/parameter "
@@ -201,7 +204,8 @@ PROPS["C03"] = dict(
     phases=dict(quick=[rc(8, 1200), rc(8, 6000, flavour="fast", seed_offset=100)],
                 thorough=[rc(16, 15000), rc(16, 70000, flavour="fast", seed_offset=100)]),
     rule=("cases: every successfully compiled generated program (typed generator incl. user macros, free layout, 1-3 files) plus unusual "
-          "declarations: repeated parameter names (25% of cases allow them), OUT = parameter, no parameters, redefined names. Oracle (static, "
+          "declarations: repeated parameter names (25% of cases allow them), OUT = parameter, no parameters, redefined names, frames of ~256 registers; 40% of the cases are 1-3-edit "
+          "mutants of such programs (biased towards argument lists): whatever the compiler accepts is verified. Oracle (static, "
           "all paths): bytecode verifier written from instr.hpp: PREPARE first / HALT last, routine extents from EXEC entries, jumps stay "
           "inside their routine and never land inside a call sequence, every register operand < the frame size of the frame it addresses "
           "(ARG targets in the callee frame, ARG sources / PREPARE targets / RET targets in the caller frame), PREPARE ARG* EXEC straight "
@@ -326,7 +330,8 @@ PROPS["C13"] = dict(
     phases=dict(quick=[rc(8, 2500, env={"VERIF_C13_LEN": "5"}), rc(8, 9000, flavour="fast", seed_offset=100, env={"VERIF_C13_LEN": "5"})],
                 thorough=[rc(16, 4000, env={"VERIF_C13_LEN": "6"}), rc(16, 30000, flavour="fast", seed_offset=100, env={"VERIF_C13_LEN": "6"})]),
     rule=("cases: random grammars with 1-4 non-terminals, 1-3 terminals (+ end marker), 1-7 productions with right sides of length 0-3 "
-          "(epsilon rules, explicit epsilon symbols, left/right recursion, unproductive and unreachable symbols), full or prefix mode; per "
+          "(epsilon rules, explicit epsilon symbols anywhere in a right side - also adjacent ones -, left/right recursion, unproductive and "
+          "unreachable symbols), one grammar in eight a unit chain A0->A1->...->Ak, Ak->eps|A0 t with up to 11 non-terminals; full or prefix mode; per "
           "grammar ALL strings of length <=5 (quick) / <=6 (thorough) over the terminals 1..largest used, end-marked. Oracle: chart-based "
           "reference recogniser with derivation counts: FIRST sets equal the fixpoint definition; if generation reports no conflict the "
           "parser accepts w$ exactly when w (prefix mode: some prefix of w) is in L(G), the returned value is the fold of the unique "
@@ -349,7 +354,7 @@ PROPS["C09"] = dict(
                 thorough=[enum(16), rc(8, 6000), rc(8, 40000, flavour="fast", seed_offset=100), fuzz(8, 360, max_len=300)]),
     rule=("cases: macro sets of 1-4 definitions (priorities from {none,5,5,9} so ties and inversions are frequent, literal identifiers / "
           "operator characters / integers / keywords from a small pool so candidates overlap, all five slot kinds, occasionally a long "
-          "pattern with 11-13 slots so that $10.. occur, bodies with $n, #n, literals and re-emitted patterns; definitions one per line, "
+          "pattern with 11-13 slots so that $10.. occur, fixed cases with 254-300 never-matching filler definitions in front of a family, bodies with $n, #n, literals and re-emitted patterns; definitions one per line, "
           "with the body on the next line, or sharing lines) x token streams built from pattern instances whose slots are filled with identifiers, integers, "
           "nested calls, argument lists and multi-statement sequences, plus noise; plus ALL streams of length <=5 (quick) / <=6 (thorough) "
           "over a 5-token vocabulary for 4 fixed macro families. Only definitions produced by extract_macros are passed to apply_macros. "
@@ -416,7 +421,8 @@ PROPS["C12"] = dict(
     phases=dict(quick=[enum(8), rc(4, 300), rc(4, 1200, flavour="fast", seed_offset=100)],
                 thorough=[enum(16), rc(8, 4000), rc(8, 30000, flavour="fast", seed_offset=100)]),
     rule=("cases: ALL patterns of length <=3 (quick: 2379) / <=4 (thorough: 30940) over 13 symbols (5 slot kinds; literals ; , id int "
-          "operator END DO :=), and random patterns up to length 8 each with its four open-ended variants (X <P>, X <ARGS>, X <P> ;, X "
+          "operator END DO :=), judged in batches of 120 definitions per apply_macros call (a verdict must not depend on the other "
+          "definitions of the call), and random patterns up to length 8 each with its four open-ended variants (X <P>, X <ARGS>, X <P> ;, X "
           "<ARGS> ,). Oracle: an independent canonical LR(1) construction in prefix mode over the same slot grammar: the non-linear error "
           "is reported exactly when the reference finds a table cell with two different actions, and is positioned at the definition; "
           "semantic cross-checks independent of that reference: the open-ended variants are always rejected; an accepted pattern "
